@@ -134,6 +134,11 @@ def mutate_lines(lines, m, env):
         return None
     i = ok_idx[m['i'] % len(ok_idx)]
     ln = lines[i]
+    if i == 0 and ln.startswith('\ufeff') and op in ('sub', 'del', 'ins') and (
+            m['j'] % max(1, len(ln)) == 0):
+        # a leading U+FEFF is an encoding signature (the file is then read
+        # as utf-8-sig), not content
+        return None
     if op == 'delline':
         if ln.strip() == '' and i == len(lines) - 1:
             return None          # trailing blank line: tolerated by design
@@ -234,7 +239,9 @@ def run(case, ctx):
                     j = len(data)
                     data.append(0x51)       # one byte more at the end
                 elif m['op'] == 'delline':
-                    if len(data) < 2:
+                    if len(data) < 2 or data[-1] in (0x0a, 0x0d):
+                        # (a "binary" payload that reads as text is compared
+                        # as text, where a final newline is not significant)
                         continue
                     j = len(data) - 1
                     del data[j]             # one byte less at the end
